@@ -11,12 +11,16 @@ correspondence leg   (a) every reachable binarised (beta, gamma) shape for K 1..
                          and re-created padding = model;
                      (b) grammar nets: ID-probed export plan (kept out/in features, groups, taps,
                          dilation, padding of every layer) = Drivers/PITNet.lean / PITTime.lean.
+                     (c) channel-level integer nets (kernel 1, spatial size 1, any topology of the grammar,
+                         exclusions, standalone BatchNorm after excluded layers, fold on/off): the
+                         *semantic* model `pitStep`/`expStep` of NetSem.lean executed at V = Int by
+                         Drivers/PITSem.lean = real PIT.eval()(x) and export().eval()(x), exactly.
 oracle leg           `PIT.eval()(x)` vs `export().eval()(x)` (re-created BatchNorms given the
                      statistics of the ones they replace) on (a) and (b), float tolerance 2e-4*scale.
 """
 import json
 
-from .. import common, pitcheck, pittime
+from .. import common, pitcheck, pitsem, pittime
 
 
 def _time_cases(chk, kmax):
@@ -157,12 +161,35 @@ def run(chk):
                                                             None if pl['pad'] is None else int(toks['pad']))
                 chk.corr(dict(pitcheck.case_id(r, a), node=node, time=ti), real, mod,
                          'exported Conv1d inside a net: time mask, kernel, dilation, kept taps, padding')
+    # ---- (c) the semantic model itself, executed: pitStep / expStep at V = Int vs the real networks
+    nsem = 60 if chk.quick else 2500
+    results, rows = pitsem.run_sem(chk, pitsem.sem_specs(chk, nsem, unsupported=True))
+    for r in results:
+        if r.get('skipped'):
+            chk.hist['sem:skipped:' + r['skipped']] = chk.hist.get('sem:skipped:' + r['skipped'], 0) + 1
+    for r, row, real, mod in rows:
+        cid = pitsem.sem_case_id(r, row)
+        chk.corr(cid, 'pit=%s exp=%s' % (real['pit'], real['exp']),
+                 'pit=%s exp=%s' % (mod.get('pit'), mod.get('exp')) if 'err' not in mod else mod['err'],
+                 'integer-valued execution of pitStep/expStep (NetSem.lean) vs PIT.eval()(x) / export().eval()(x)')
+        chk.count(('sem', row['request']), nontrivial=bool(r.get('pruned')),
+                  bucket='sem:' + ('supported' if mod.get('sup') == '1' else 'unsupported') +
+                         (':standalone-bn' if r.get('standalone_bn') else ''),
+                  sample={'prog': r['prog'], 'real': row['real']} if r.get('pruned') else None)
+        if mod.get('sup') == '1' and real['pit'] != real['exp']:
+            chk.violation('C01:eval-vs-export:integer-net', 'exported network differs from the PIT model on an integer-valued '
+                          'channel-level network (exact comparison): %s' % row['real'], cid)
     chk.extra['exhaustive'] = False
     chk.extra['time_shapes_enumerated_exhaustively'] = True
 
 
 def replay(data):
     case = data['case']
+    if case.get('kind') == 'sem':
+        r = pitsem.sem_case(case['spec'])
+        print(r.get('construct_error') or r.get('export_error') or [x['real'] for x in r['rows']])
+        bad = [x for x in r['rows'] if x['real'].split()[0][4:] != x['real'].split()[1][4:]]
+        return 1 if (bad or r.get('export_error')) else 0
     if case.get('kind') == 'single':
         o = pittime.single_layer_export((case['K'], case['d0'], case['beta'], case['gamma'], case['seed']))
         print(o)
